@@ -18,7 +18,7 @@ import json, os, re, subprocess, sys, time
 
 REPO = '/repo'
 VERIF = '/verif'
-OUT = os.path.join(VERIF, 'tools', 'mutation_sweep.jsonl')
+OUT = os.path.join(VERIF, 'tools', 'mutation_sweep_stmt.jsonl' if ('--mode' in sys.argv and 'stmt' in sys.argv) else 'mutation_sweep.jsonl')
 
 # (file, first line, last line, properties to try in order); line ranges are inclusive, 1-based, and
 # cover the code the three properties are anchored in (test modules and the PxE2<N> impls excluded)
@@ -78,7 +78,29 @@ def strip_comment(line):
     i = line.find('//')
     return (line, '') if i < 0 else (line[:i], line[i:])
 
+STMT_MODE = '--mode' in sys.argv and sys.argv[sys.argv.index('--mode') + 1] == 'stmt'
+
+def stmt_mutants_of_line(line):
+    """second sweep: statement deletion and forced branch conditions"""
+    code, comment = strip_comment(line)
+    st = code.strip()
+    if not st or st.startswith('#') or st.startswith('use ') or st.startswith('pub ') or st.startswith('fn '):
+        return
+    indent = code[:len(code) - len(code.lstrip())]
+    if st.endswith(';') and not st.startswith('let ') and not st.startswith('return') and not st.startswith('type ') and not st.startswith('const ') and '{' not in st and '}' not in st:
+        yield indent + '/* deleted: ' + st.replace('*/', '* /') + ' */' + comment, 'statement deleted'
+    m = re.match(r'^(\s*(?:\} else )?if )(.*)( \{)\s*$', code)
+    if m and not m.group(2).startswith('let '):
+        for v in ('true', 'false'):
+            yield m.group(1) + v + m.group(3) + comment, f'if-condition -> {v}'
+    m = re.match(r'^(\s*while )(.*)( \{)\s*$', code)
+    if m and not m.group(2).startswith('let '):
+        yield m.group(1) + 'false' + m.group(3) + comment, 'while-condition -> false'
+
 def mutants_of_line(line):
+    if STMT_MODE:
+        yield from stmt_mutants_of_line(line)
+        return
     code, comment = strip_comment(line)
     if not code.strip() or code.strip().startswith('#'):
         return
